@@ -137,6 +137,27 @@ pub(crate) fn split_os_argument(input: &std::ffi::OsStr) -> Option<(ArgType, Str
             }
         }
 
+        // number of elements taken by the first character, 1 if it can't be decoded
+        fn first_char_len(vec: &[Elt]) -> usize {
+            #[cfg(unix)]
+            {
+                let len: usize = match vec.first() {
+                    Some(b) if *b >= 0xf0 => 4,
+                    Some(b) if *b >= 0xe0 => 3,
+                    Some(b) if *b >= 0xc0 => 2,
+                    _ => 1,
+                };
+                len.min(vec.len().max(1))
+            }
+            #[cfg(windows)]
+            {
+                match vec.first() {
+                    Some(u) if (0xd800..0xdc00).contains(u) => 2usize.min(vec.len()),
+                    _ => 1,
+                }
+            }
+        }
+
         // try to decode elements into a String
         fn str_from_vec(vec: Vec<Elt>) -> Option<String> {
             Some(os_from_vec(vec).to_str()?.to_owned())
@@ -180,11 +201,13 @@ pub(crate) fn split_os_argument(input: &std::ffi::OsStr) -> Option<(ArgType, Str
         loop {
             match items.next() {
                 Some(EQUALS) => {
-                    if ty == ArgType::Short && name.len() > 1 {
-                        let mut body = name.drain(1..).collect::<Vec<_>>();
+                    // short name is a single character which can take several elements
+                    let first = first_char_len(&name);
+                    if ty == ArgType::Short && name.len() > first {
+                        let mut body = name.drain(first..).collect::<Vec<_>>();
                         body.push(EQUALS);
                         body.extend(items);
-                        name.truncate(1);
+                        name.truncate(first);
                         let os = Arg::ArgWord(os_from_vec(body));
                         return Some((ty, str_from_vec(name)?, Some(os)));
                     }
